@@ -55,7 +55,7 @@ CLAIMED = {
                   "(inversion theorem); the copied mode blocks partition the smaller grid and preserve the signed wavenumber for all parity combinations; the resampling model keeps the mean of ANY "
                   "state and all coefficients u_hat(k)/N^D of a Nyquist-free band-limited state when mapped to a finer grid or a coarser one that resolves it (any D, n, m, oddball setting). The model's "
                   "kept-set and values are compared with the spectrum of map_between_resolutions for every (N_old, N_new) pair.",
-             note="The theorem on interpolation is the full complex spectrum statement in 1-D; the half-spectrum real form with reconstruction weights (and indexing='xy') is checked on the real code, "
+             note="The theorem on interpolation is the full complex spectrum statement (1-D, and every dimension D for the iterated transform); the half-spectrum real form with reconstruction weights (and indexing='xy') is checked on the real code, "
                   "including white noise on even grids at the grid points and query points outside the domain.",
              technique="Rocq proof (DFT theory from a primitive root, lia on the slice arithmetic, field identities) + correspondence of the resampled spectra", design="§4 C15"),
  "C11": dict(text="Theorems (complex numbers over any ordered field; the order laws are premises, satisfiable over Q): for real coefficients and real wavenumbers in any dimension the advection / "
